@@ -65,3 +65,72 @@ def call_node(f: FuncInfo, name: str):
             if ids:
                 return ids[0], n
     return None, None
+
+
+def facts(test: ast.AST, truth: bool = True):
+    """atomic facts known when `test` evaluates to `truth`: [(atom, bool)].  `not` is stripped, a true conjunction
+    gives all its conjuncts, a false disjunction all its disjuncts; NotIn / IsNot / NotEq atoms are returned in their
+    positive form with the truth value flipped.  Rules use this instead of matching the orientation of an `if`."""
+    if isinstance(test, ast.UnaryOp) and isinstance(test.op, ast.Not):
+        return facts(test.operand, not truth)
+    if isinstance(test, ast.BoolOp):
+        if isinstance(test.op, ast.And) and truth or isinstance(test.op, ast.Or) and not truth:
+            out = []
+            for v in test.values:
+                out += facts(v, truth)
+            return out
+        return [(test, truth)]
+    if isinstance(test, ast.Compare) and len(test.ops) == 1:
+        flip = {ast.NotIn: ast.In, ast.IsNot: ast.Is, ast.NotEq: ast.Eq}
+        for neg, pos in flip.items():
+            if isinstance(test.ops[0], neg):
+                t2 = ast.Compare(left=test.left, ops=[pos()], comparators=test.comparators)
+                ast.copy_location(t2, test)
+                return [(t2, not truth)]
+    return [(test, truth)]
+
+
+def path_facts(cfg: CFG, node_id: int):
+    """facts that hold on every path to the CFG node (from the branch conditions that dominate it)"""
+    out = []
+    for h, lab in cfg.branch_conditions(node_id):
+        n = cfg.node(h)
+        if n.kind in ("if", "while") and lab in (TRUE, FALSE):
+            out += facts(n.ast, lab == TRUE)
+    return out
+
+
+def _positive(test, truth):
+    if isinstance(test, ast.Compare) and len(test.ops) == 1:
+        flip = {ast.NotIn: ast.In, ast.IsNot: ast.Is, ast.NotEq: ast.Eq}
+        for neg, pos in flip.items():
+            if isinstance(test.ops[0], neg):
+                t2 = ast.Compare(left=test.left, ops=[pos()], comparators=test.comparators)
+                ast.copy_location(t2, test)
+                return [(t2, not truth)]
+    return [(test, truth)]
+
+
+def sufficient(test: ast.AST, truth: bool = True):
+    """atoms (a, v) such that `a == v` ALONE makes `test == truth` (disjuncts of a true `or`, conjuncts of a false
+    `and`); a conjunction that must be true as a whole is returned as one opaque atom.  This is the direction a guard
+    needs: 'whenever a == v the raise is taken'."""
+    if isinstance(test, ast.UnaryOp) and isinstance(test.op, ast.Not):
+        return sufficient(test.operand, not truth)
+    if isinstance(test, ast.BoolOp):
+        if isinstance(test.op, ast.Or) and truth or isinstance(test.op, ast.And) and not truth:
+            out = []
+            for v in test.values:
+                out += sufficient(v, truth)
+            return out
+        return [(test, truth)]
+    return _positive(test, truth)
+
+
+def raise_facts(f: FuncInfo):
+    """for every raising `if`: (cfg node, exception, [(atom, value)]) where each pair alone is sufficient for the
+    raise to be taken"""
+    out = []
+    for n, lab, exc in raising_ifs(f):
+        out.append((n, exc, sufficient(n.ast, lab == TRUE)))
+    return out
